@@ -143,6 +143,22 @@ pub fn run(tier: Tier) -> i32 {
                 items.push((format!("{} literals, 64 bytes damaged at input offset {}, written in pieces of {} bytes", nlit, dmg, piece), Case::Stream { opts: Opts::default(), sk: Sk::default(), ops: probes(first) }, false));
             }
         }
+        // a valid stream whose SINK refuses the first window hand-over (Other / WouldBlock / TimedOut): the write that hits
+        // it fails, and the stream is failed for good like after any other failed write
+        {
+            let prog: Vec<Sym> = (0..10_000u32).map(|i| Sym::L((i * 31 + i / 7) as u8)).collect();
+            let e2 = enc::encode(3, 0, 2, 4096, &prog);
+            let f2 = enc::lzma_file(3, 0, 2, 4096, None, &{ let mut q = prog.clone(); q.push(Sym::E); enc::encode(3, 0, 2, 4096, &q).payload });
+            let _ = e2;
+            for kind in [0u8, 2, 3] {
+                for k in [0usize, 1] {
+                    for piece in [512usize, 37, f2.len()] {
+                        let first: Vec<SOp> = f2.chunks(piece).map(|c| SOp::WriteAll(Hex(c.to_vec()))).collect();
+                        items.push((format!("10000 literals through a 4096-byte window in {}-byte writes, sink write #{} fails with error kind {}", piece, k, kind), Case::Stream { opts: Opts::default(), sk: Sk { fail_write_at: Some(k), fail_kind: kind, ..Sk::default() }, ops: probes(first) }, false));
+                    }
+                }
+            }
+        }
         // valid streams through windows of exactly 1 MiB / 2 MiB that wrap
         for dict in [1u32 << 20, 2 << 20] {
             let total = dict as usize + 4096 + 77;
@@ -168,6 +184,14 @@ pub fn run(tier: Tier) -> i32 {
                 items.push((format!("{} bytes through a window of exactly {} bytes, pieces of {}", e.expect.len(), dict, piece), Case::Stream { opts: Opts::default(), sk: Sk::default(), ops }, true));
             }
         }
+        // small corrupt inputs whose failing call is a gathered write (write_vectored with two slices)
+        for inp in ins.iter().filter(|i| i.label.contains(" byte ") && i.bytes.len() < 200).take(tier.pick(150, 2000)) {
+            let n = inp.bytes.len();
+            for cut in [n / 3, n / 2] {
+                let first = vec![SOp::WriteVectoredAll(vec![Hex(inp.bytes[..cut].to_vec()), Hex(inp.bytes[cut..].to_vec())])];
+                items.push((format!("{} offered through write_vectored as two slices cut at {}", inp.label, cut), Case::Stream { opts: inp.opts, sk: Sk::default(), ops: probes(first) }, false));
+            }
+        }
         par_for(items.len() as u64, |i| {
             let (label, case, valid) = &items[i as usize];
             let o = run_case(case);
@@ -187,9 +211,15 @@ pub fn run(tier: Tier) -> i32 {
                 return;
             }
             let Some(f) = o.ops.iter().position(|r| r.v.is_err()) else {
+                if label.contains("write_vectored") {
+                    return; // this substitution does not make a write fail (it surfaces at finish, or not at all)
+                }
                 ctx.violation(case, &format!("{}: some write reports the damage", label), &o, None);
                 return;
             };
+            if label.contains("write_vectored") && f >= o.ops.len() - 5 {
+                return; // the gathered write itself succeeded; only a probe failed
+            }
             let k = o.ops.len();
             let sink_at_failure = o.ops[f].sink_len;
             let later_writes_ok0 = o.ops[f + 1..k - 5].iter().all(|r| r.v.is_ok() && r.n == Some(0));
